@@ -396,4 +396,60 @@ theorem list_strs (ps : List (Property XV)) (e : Xml) (o cd : Obj XV) (adm arg :
   obtain ⟨s, _, rfl⟩ := List.mem_map.mp hv
   exact lift_roundtrip _ _ (stringCodec_roundtrip s)
 
+
+theorem RunOKC.mono {C C' : Kw XV → Prop} {o : Obj XV} {impl : CustomImpl XV} {run : Kw XV → Option (Kw XV)}
+    (h : ∀ kw, C' kw → C kw) (hr : RunOKC C o impl run) : RunOKC C' o impl run :=
+  fun kw hc hn => hr kw (h kw hc) hn
+
+/-- a list handler whose element parser does not look at the other keyword arguments (`as_list_handler`) -/
+theorem fieldOK_list (ps : List (Property XV)) (e : Xml) (o cd : Obj XV) (arg adm : String)
+    (read : Kw XV → Xml → Option XV) (write : Obj XV → XV → Xml) (argOpt : Option String) (vs : List XV)
+    (hv : o arg = .many vs) (htag : ∀ v, (write o v).tag = outName adm)
+    (hr : ∀ kw, ∀ v ∈ vs, read kw (write o v) = some v) :
+    FieldOK ps e o cd (.customElement adm argOpt false (listImpl arg adm read write)) := by
+  refine ⟨?_, by simp [listImpl], ?_, by simp⟩
+  · intro x hx
+    simp only [listImpl, hv] at hx
+    obtain ⟨v, _, rfl⟩ := List.mem_map.mp hx
+    rw [htag v]; exact matchesName_outName _
+  · exact RunOKC.mono (C := fun _ => True) (fun _ _ => trivial)
+      (run_list arg adm read write o (fun _ => True) (fun _ _ _ => trivial) vs hv (fun kw _ v hv => hr kw v hv))
+
+/-- `frequency` (0–2 elements accumulated into one `Frequency`) -/
+theorem run_frequency (o : Obj XV) (f : Frequency) (hf : o "frequency" = .one (.freq f)) :
+    RunOK o frequencyImpl (fun kw => (frequencyImpl.childrenOut o).foldlM frequencyImpl.handle kw) := by
+  intro kw hnone
+  have hk : kw "frequency" = none := hnone _ (by simp [frequencyImpl])
+  obtain ⟨lo, hi⟩ := f
+  by_cases hz : (⟨lo, hi⟩ : Frequency) = ⟨none, none⟩
+  · refine ⟨kw, ?_, ?_, fun _ _ => rfl⟩
+    · simp only [Frequency.mk.injEq] at hz
+      simp [frequencyImpl, hf, frequencyToXml, hz.1, hz.2]
+    · intro a ha
+      simp only [frequencyImpl, List.mem_singleton] at ha; subst ha
+      simp [frequencyImpl, hf, hk, hz]
+  · refine ⟨setOne kw "frequency" (.freq ⟨lo, hi⟩), ?_, ?_, ?_⟩
+    · cases lo <;> cases hi <;> (try (simp at hz)) <;>
+        simp [frequencyImpl, hf, frequencyToXml, handleFrequency, attr?, elem, Xml.attrs, Xml.text, loadsNum_dumpsNum,
+          hk, setOne, Kw.set]
+      all_goals (funext b; by_cases hb : b = "frequency" <;> simp_all [Kw.set])
+    · intro a ha
+      simp only [frequencyImpl, List.mem_singleton] at ha; subst ha
+      simp [frequencyImpl, hf, setOne, Kw.set, hz]
+    · intro b hb
+      simp only [frequencyImpl, List.mem_singleton] at hb
+      simp [setOne, Kw.set, hb]
+
+theorem frequencyToXml_tag (f : Frequency) : ∀ x ∈ frequencyToXml f, x.tag = outName "frequency" := by
+  intro x hx
+  simp only [frequencyToXml, List.mem_append] at hx
+  rcases hx with hx | hx <;> (split at hx <;> simp at hx; subst hx; rfl)
+
+theorem fieldOK_frequency (ps : List (Property XV)) (e : Xml) (o cd : Obj XV) (f : Frequency)
+    (hf : o "frequency" = .one (.freq f)) : FieldOK ps e o cd (.customElement "frequency" none false frequencyImpl) := by
+  refine ⟨?_, by simp [frequencyImpl], (run_frequency o f hf).ctx, by simp⟩
+  intro x hx
+  simp only [frequencyImpl, hf] at hx
+  rw [frequencyToXml_tag f x hx]; exact matchesName_outName _
+
 end Earverif.XmlBlocks
